@@ -145,6 +145,10 @@ func newPkg(pkg *packages.Package, u *Universe) Package {
 		}
 	}
 
+	// trailing comments are children of their declaration, so the walk reaches them as comment groups too;
+	// they must not be indexed as leading comments of the following line
+	trailing := make(map[*ast.CommentGroup]bool)
+
 	for i := range p.Package.Syntax {
 		f := p.Package.Syntax[i]
 
@@ -179,17 +183,23 @@ func newPkg(pkg *packages.Package, u *Universe) Package {
 					}
 				}
 			case *ast.CommentGroup:
-				collectCommentGroup(x, false, x.Pos())
+				if !trailing[x] {
+					collectCommentGroup(x, false, x.Pos())
+				}
 			case *ast.ValueSpec:
+				trailing[x.Comment] = true
 				collectCommentGroup(x.Doc, false, x.Pos())
 				collectCommentGroup(x.Comment, true, x.Pos())
 			case *ast.ImportSpec:
+				trailing[x.Comment] = true
 				collectCommentGroup(x.Doc, false, x.Pos())
 				collectCommentGroup(x.Comment, true, x.Pos())
 			case *ast.TypeSpec:
+				trailing[x.Comment] = true
 				collectCommentGroup(x.Doc, false, x.Pos())
 				collectCommentGroup(x.Comment, true, x.Pos())
 			case *ast.Field:
+				trailing[x.Comment] = true
 				collectCommentGroup(x.Doc, false, x.Pos())
 				collectCommentGroup(x.Comment, true, x.Pos())
 			}
